@@ -36,7 +36,7 @@ def check(case):
             path = os.path.join(fama.CORPUS, case["corpus"])
         elif case["source"] == "writer":
             path = sc.path("doc." + EXT[rd])
-            fm0 = build.build(case["model"])
+            fm0 = build.build(case.get("foreign_model") or case["model"])
             w = lib(lambda: getattr(T, WRITERS[rd][0])(path, fm0).transform())
             if isinstance(w, Raised):
                 return out
@@ -111,6 +111,13 @@ def operations_traverse(fm, pid, out):
 def writer_cases(rd, min_feats=1):
     @st.composite
     def cases(draw):
+        if draw(st.integers(0, 3)) == 0:
+            # 'documents produced by this library's writers from ARBITRARY well-formed models': a model outside the
+            # format's fragment (single children with [1..2], typed features, several groups per parent ...).  The
+            # writer may refuse it and the reader may reject what was written - but what a reader accepts must be a tree
+            from vf.props import c03
+            return {"reader": rd, "source": "writer", "model": None,
+                    "foreign_model": draw(S.model_specs(draw(st.sampled_from([c03.ANY, S.UVL, S.JSON])), min_feats, 8, allow_wide=False))}
         return {"reader": rd, "source": "writer", "model": draw(S.model_specs(WRITERS[rd][3], min_feats, 10))}
     return cases()
 
@@ -189,7 +196,7 @@ def _depth(m):
 
 
 def nontrivial(case):
-    if case["source"] == "corpus" or case.get("odd"):
+    if case["source"] == "corpus" or case.get("odd") or case.get("foreign_model"):
         return True
     m = case["model"]
     if any(_not_depth(c["ast"]) >= 0 for c in m["ctcs"]) or _depth(m) >= 3:
@@ -202,6 +209,8 @@ def classes(case):
         return {"corpus"}
     if case.get("odd"):
         return {"unrepresentable-construct"}
+    if case.get("foreign_model"):
+        return {"foreign-model"}
     m = case["model"]
     out = set()
     for c in m["ctcs"]:
